@@ -6,7 +6,7 @@ import re
 
 from ..eqmodel import attrs_read, eq_disjuncts
 from ..pymodel import package
-from ..valueflow import Flow, as_map, match, V, show, simp, walk
+from ..valueflow import Flow, as_map, match, V, show, simp, walk, norm_guard
 from .c09 import hash_contract
 
 EXPLANATION = (
@@ -129,10 +129,9 @@ def _r3(ctx, pkg):
     # build on the old entry, forgets the first occurrence -- and `first` / the report are derived from the table
     for st in stores:
         k_ = simp(st.index)
-        unseen = ("cmp", ("NotIn",), (k_, ACC_SEEN))
-        g_ = [(simp(g), p) for g, p in st.guards]
+        g_ = [norm_guard((simp(g), p)) for g, p in st.guards]
         reads_old = any(x == ACC_SEEN for x in walk(simp(st.value)))
-        if (unseen, True) not in g_ and (("cmp", ("In",), (k_, ACC_SEEN)), False) not in g_ and not reads_old:
+        if (("cmp", ("In",), (k_, ACC_SEEN)), False) not in g_ and not reads_old:
             ctx.bad("R3", "store only when unseen", (NF, st.line), "the first-seen table is overwritten for a key that is already in it: the recorded occurrence is the previous one, not the first "
                     "(classes of three or more members report a wrong first member)", expected="if chk not in seen: seen[chk] = [idx]",
                     found="; ".join(("" if p else "not ") + show(g)[:60] for g, p in g_) or "unguarded store")
@@ -142,19 +141,19 @@ def _r3(ctx, pkg):
     st = stores[0]
     key = simp(st.index)
     lp = st.loops[0] if len(st.loops) == 1 else None
-    notseen = ("cmp", ("NotIn",), (key, ACC_SEEN))
+    isseen = ("cmp", ("In",), (key, ACC_SEEN))        # guards are kept in positive form: unseen = (isseen, False)
     # loop
     it = simp(lp.iter) if lp else None
     chk = it[2][0] if it and it[0] == "call" and it[1] == ("global", "enumerate") and len(it[2]) == 1 else ("const", None)
     ok_loop = lp is not None and it == ("call", ("global", "enumerate"), (chk,), ())
     ctx.check(ok_loop, "R3", "loop", (NF, lp.line if lp else fn.lineno), "every entry of the check list is visited once, in order, with its index", found=show(it)[:100] if it else "")
-    ctx.check([(simp(g), p) for g, p in st.guards] == [(notseen, True)], "R3", "store only when unseen", (NF, st.line),
+    ctx.check([norm_guard((simp(g), p)) for g, p in st.guards] == [(isseen, False)], "R3", "store only when unseen", (NF, st.line),
               "a key enters `seen` exactly when it was not there", expected="if chk not in seen: seen[chk] = [idx]", found="; ".join(show(simp(g))[:60] for g, _ in st.guards))
     v = simp(st.value)
     ctx.check(v[0] == "list" and len(v[1]) == 1 and v[1][0][0] == "idx", "R3", "stored list non-empty", (NF, st.line), "the stored value is the one-element list [idx]", found=show(v)[:60])
     for f in reports:
-        g = [(simp(x), p) for x, p in f.guards]
-        base_ok = g and g[0] == (notseen, False)
+        g = [norm_guard((simp(x), p)) for x, p in f.guards]
+        base_ok = g and g[0] == (isseen, True)
         extra = g[1:]
         taut = True
         why = ""
@@ -175,8 +174,8 @@ def _r3(ctx, pkg):
     ctx.check(simp(i.value) == idx and simp(d.value) == ("sub", RL, idx), "R3", "report values", (NF, d.line),
               "the reported pair is (reactions[idx], idx) of the current entry", found=f"{show(simp(d.value))[:60]} / {show(simp(i.value))[:40]}")
     g = grows[0]
-    gg = [(simp(x), p) for x, p in g.guards]
-    ctx.check(gg == [(notseen, False)] and simp(g.value[3][0]) == idx, "R3", "seen arm appends index", (NF, g.line), "every later occurrence appends its index to the key's list, unconditionally",
+    gg = [norm_guard((simp(x), p)) for x, p in g.guards]
+    ctx.check(gg == [(isseen, True)] and simp(g.value[3][0]) == idx, "R3", "seen arm appends index", (NF, g.line), "every later occurrence appends its index to the key's list, unconditionally",
               found="; ".join(show(x)[:50] for x, _ in gg))
     # first
     rets = [f for f in fl.facts if f.kind == "return"]
